@@ -602,6 +602,8 @@ fn visit_selection<'a, V: Visitor<'a>>(
     ctx: &mut VisitorContext<'a>,
     selection: &'a Positioned<Selection>,
 ) {
+    #[cfg(feature = "verif-hooks")]
+    crate::verif_hooks::tick();
     v.enter_selection(ctx, selection);
     match &selection.node {
         Selection::Field(field) => {
